@@ -428,6 +428,48 @@ func childC18(args []string) {
 				out.inconclusive("porcupine timed out on a perturbed history")
 			}
 		}
+	case "wait-cancel-then-ready":
+		// Cancelled first, ready right afterwards: the context's error must win.
+		// The check interval is long (300 ms) and the cancellation is placed in
+		// the middle of an interval, so that no tick is anywhere near it (with a
+		// tick and the cancellation pending at once even correct code may pick
+		// either); a case whose timing slipped to within 60 ms of a tick is skipped.
+		health.DefaultReadyCheckInterval = 300 * time.Millisecond
+		var wg sync.WaitGroup
+		for i := from; i < to; i++ {
+			i := i
+			wg.Add(1)
+			go func() {
+				defer wg.Done()
+				h := health.NewHealth()
+				h.AddReadiness(hNames[0])
+				h.AddReadiness(hNames[1])
+				h.OnReady(hNames[0])
+				ctx, cancel := context.WithCancel(context.Background())
+				defer cancel()
+				t0 := time.Now()
+				ch := h.WaitForReady(ctx)
+				time.Sleep(time.Duration(120+10*(i%6)) * time.Millisecond)
+				at := time.Since(t0) % (300 * time.Millisecond)
+				if at < 60*time.Millisecond || at > 240*time.Millisecond {
+					out.add("wait_cancel_then_ready_skipped_near_a_tick", 1)
+					return
+				}
+				cancel()
+				h.OnReady(hNames[1])
+				select {
+				case e, ok := <-ch:
+					out.add("wait_cancel_then_ready_cases", 1)
+					if !ok || e != context.Canceled {
+						out.violation("C18:wait:cancelled-first-but-completed", fmt.Sprintf("the context was cancelled while a component was not ready; it became ready afterwards and WaitForReady completed (closed=%v err=%v) instead of yielding the context's error", !ok, e), map[string]any{"case": i})
+					}
+				case <-time.After(30 * time.Second):
+					out.violation("C18:wait:no-error-after-cancel", "WaitForReady yielded nothing 30 s after cancellation", map[string]any{"case": i})
+				}
+			}()
+		}
+		wg.Wait()
+		out.class("wait-cancel-then-ready")
 	case "wait":
 		health.DefaultReadyCheckInterval = time.Millisecond
 		for i := from; i < to; i++ {
@@ -518,7 +560,7 @@ func checkC18(r *vlib.Run) int {
 	for _, ph := range []struct {
 		name string
 		n    int
-	}{{"perturb", nPert}, {"wait", nWait}} {
+	}{{"perturb", nPert}, {"wait", nWait}, {"wait-cancel-then-ready", r.Pick(64, 640)}} {
 		res := runChildren(r, "mon-race", "c18", ph.n, (ph.n+15)/16, 20*time.Minute, ph.name)
 		for k, v := range res.stats {
 			stats[k] += v
@@ -534,9 +576,12 @@ func checkC18(r *vlib.Run) int {
 	r.Set("perturb_responses_checked", stats["responses"])
 	r.Set("wait_ready_cases", stats["wait_ready_cases"])
 	r.Set("wait_cancel_cases", stats["wait_cancel_cases"])
+	r.Set("wait_cancel_then_ready_cases", stats["wait_cancel_then_ready_cases"])
+	r.Set("wait_cancel_then_ready_skipped_near_a_tick", stats["wait_cancel_then_ready_skipped_near_a_tick"])
 	r.Require(counts["Ok"] > 50, "fewer than 50 steered histories checked by porcupine")
 	r.Require(stats["porcupine:Ok"] >= nPert*9/10, "fewer than 90% of the perturbed histories were decided Ok by porcupine")
 	r.Require(stats["wait_ready_cases"]+stats["wait_cancel_cases"] >= nWait*9/10, "too few WaitForReady cases")
+	r.Require(stats["wait_cancel_then_ready_cases"] >= 16, "too few cancelled-then-ready cases")
 	r.Sample(map[string]any{"steer_program": hPrograms()[1].Name})
 	r.Assumptions = []string{"component names never equal the reserved key 'overall'",
 		"WaitForReady is observed with DefaultReadyCheckInterval set to 1 ms; 'completes only after' is decided by logical-clock stamps (the channel must not fire before the last OnReady call started)"}
